@@ -67,6 +67,16 @@ class Pol:
             if name == 'signature':
                 return self.of(base, cls, depth + 1)
             owner = self.owner_class(base, cls, depth)
+            if owner is not None and not self.idx.members(owner).get(name):
+                # a read-only property whose body is one `return <expression over self>`: the expression, seen from `base`
+                pf = self.idx.lookup_method(owner, name)
+                if pf is not None and pf.is_property:
+                    import ast
+                    body = [s for s in pf.node.body if not (isinstance(s, ast.Expr) and isinstance(s.value, ast.Constant))]
+                    if len(body) == 1 and isinstance(body[0], ast.Return) and body[0].value is not None:
+                        inner = ir.subst(ir.from_ast(body[0].value, {}), lambda x: base if x == ('name', 'self') else None)
+                        if depth < 6:
+                            return self.of(inner, cls, depth + 1)
             if owner is not None:
                 mem = self.idx.members(owner).get(name)
                 if mem:
